@@ -2,6 +2,7 @@ CONSTANTS
   MaxLen = 3
   Parts = {"form", "meta"}
   Escaper = "html"
+  PrefixCheckOnly = FALSE
 INIT Init
 NEXT Next
 INVARIANTS
